@@ -1,3 +1,4 @@
+import StamModel.QuerySem
 import StamModel.DataValue
 import StamModel.Driver.Txt
 open Stam
@@ -67,6 +68,37 @@ def findDataCmd (s : State) (args : List String) : String :=
         (fun v => dvTest (DV.parse v) op)
       if r.isEmpty then "-" else ",".intercalate (r.map (fun p => s!"{p.1}.{p.2}"))
     | _ => "bad-op"
+  | _ => "bad-op"
+
+def showHandles (l : List Nat) : String := if l.isEmpty then "-" else ",".intercalate (l.map toString)
+
+/-- split a token list at `;;` -/
+def splitConstraints : List String → List (List String)
+  | [] => [[]]
+  | t :: ts =>
+    match splitConstraints ts with
+    | [] => [[t]]
+    | c :: cs => if t = ";;" then [] :: c :: cs else (t :: c) :: cs
+
+def foundOf (s : State) (toks : List String) : Option (List (Nat × Nat)) :=
+  match toks with
+  | set :: key :: optoks =>
+    match parseDOp 64 optoks with
+    | some (op, []) => some (s.findData (if set = "*" then none else some set) (if key = "*" then none else some key)
+        (fun v => dvTest (DV.parse v) op))
+    | _ => none
+  | _ => none
+
+/-- `st qann set key op…`: SELECT ANNOTATION with that data constraint, index-driven (p=) and as a filter (f=) -/
+def qannCmd (s : State) (args : List String) : String :=
+  match foundOf s args with
+  | some found => s!"p={showHandles (s.annsOfData found)} f={showHandles (s.annsWithData found)}"
+  | none => "bad-op"
+
+/-- `st qand c1 ;; c2 ;; …`: the conjunction, the first constraint index-driven -/
+def qandCmd (s : State) (args : List String) : String :=
+  match (splitConstraints args).mapM (foundOf s) with
+  | some (first :: others) => showHandles (s.annsQuery first others)
   | _ => "bad-op"
 
 end Driver
